@@ -93,6 +93,20 @@ CLAIMED = {
        "temp dir); tempfile::tempdir cleanup; the zip crate's enclosed_name (tied).",
   technique="Lean 4 proof over a path-component model + sandbox file-system snapshots around CLI runs",
   design="6.C19"),
+ "C16": dict(
+  text=("Proof (13 theorems, all full strength, for all option subsets, all sources as per-line match bits and all "
+        "coverage records): line data of line n is removed iff n matches the line marker or lies in a start-inclusive / "
+        "stop-exclusive line region (C16_lines), the same for branch data (C16_branches), the two dimensions are "
+        "independent (C16_independent, C16_four_outcomes), the record loses exactly the listed keys and nothing else, "
+        "no options or an unreadable source leave it unchanged. Tie: the real FileFilter::create and rewrite_paths on "
+        "~36k cases per quick run (all <=2-line texts x 64 option sets exhaustively, random LF/CRLF/UTF-8 texts over four "
+        "regex sets, unreadable sources), with an independent Rust re-statement of the rule on every case. The defect "
+        "found (single-line marker ignored inside a region of the other kind) was repaired by fix: commit c7806a2."),
+  note=COMMON_NOTE + "Modelled, not verified: regex::is_match as per-line bits, the LF/CR line splitter, "
+       "read_to_string as a Boolean; sources < 2^32 lines; the path plumbing of rewrite_paths around the removal loop is "
+       "exercised, not modelled.",
+  technique="Lean 4 proof over a model of the two-flag single pass + exhaustive small-scope and random differential correspondence",
+  design="6.C16"),
 }
 
 PENDING_REASON = "not claimed in this revision: model and check still being built (see DESIGN.md section 10)"
